@@ -137,6 +137,7 @@ class C15(Prop):
         "RxModel.GenTie.Subscriber": [], "RxModel.GenTie.SubscriberThreads": [],
         # the RAII guard of family `gdrop`: dropping it IS unsubscribing (tie_Guard_drop)
         "RxModel.GenTie.Subscription": [],
+        "RxModel.GenTie.PinsCore": [],
     }
 
     def cases(self, tier, seed):
